@@ -49,6 +49,7 @@ fn dispatch_run(prop: &str, tier: Tier, shard: Shard, rep: &mut Report) {
         "C07" => props::c07::run(tier, shard, rep),
         "C08" => props::c08::run(tier, shard, rep),
         "C12" => props::c12::run(tier, shard, rep),
+        "C16" => props::c16::run(tier, shard, rep),
         "C17" => props::c17::run(tier, shard, rep),
         _ => {
             eprintln!("unknown property {}", prop);
@@ -62,6 +63,7 @@ fn dispatch_replay(prop: &str, case: &serde_json::Value, rep: &mut Report) {
         "C07" => props::c07::replay(case, rep),
         "C08" => props::c08::replay(case, rep),
         "C12" => props::c12::replay(case, rep),
+        "C16" => props::c16::replay(case, rep),
         "C17" => props::c17::replay(case, rep),
         _ => {
             eprintln!("unknown property {}", prop);
